@@ -36,6 +36,7 @@ type selfTestResult struct {
 	Missed   []string `json:"missed,omitempty"`
 	Noisy    []string `json:"noisy,omitempty"`
 	Passed   []string `json:"passed,omitempty"`
+	Pairs    []string `json:"pairs,omitempty"` // thorough tier: (defective, repaired) pairs of this property
 	Note     string   `json:"note"`
 }
 
@@ -305,6 +306,9 @@ func runSelfTest(repo, verif, prop, tier string, rules []*Rule, base []Obligatio
 		}
 	}
 	sort.Strings(res.Passed)
+	if tier != "quick" {
+		res.Pairs = runPairs(repo, verif, prop, rules, baseBad)
+	}
 	fmt.Printf("selftest property=%s mutants=%d as_expected=%d missed=%d noisy=%d skipped=%d\n", prop, res.Total, res.AsExpect, len(res.Missed), len(res.Noisy), len(res.Skipped))
 	for _, s := range res.Missed {
 		fmt.Println("  SELFTEST-MISS", s)
@@ -316,6 +320,66 @@ func runSelfTest(repo, verif, prop, tier string, rules []*Rule, base []Obligatio
 		fmt.Println("  selftest-skip", s)
 	}
 	return res
+}
+
+// runPairs: for every (defective, repaired) pair of this property kept under pairs/, the obligations of the property's
+// rules that are not discharged with the defective member applied, with the repaired member applied, and whether some
+// obligation tells the two apart (the alarm is about the defect, not only about the restructuring around it).
+func runPairs(repo, verif, prop string, rules []*Rule, baseBad map[string]bool) []string {
+	dirs, _ := filepath.Glob(filepath.Join(verif, "pairs", prop+"-*"))
+	sort.Strings(dirs)
+	fired := func(patch string) (map[string]bool, string) {
+		ov, why := applyPatch(repo, patch)
+		if ov == nil {
+			return nil, why
+		}
+		r, err := analyse(repo, rules, LoadOpts{Overlay: ov})
+		if err != nil {
+			return nil, "does not load: " + firstLine(err.Error())
+		}
+		out := map[string]bool{}
+		for _, o := range r.Obs {
+			if o.Status != Discharged && !baseBad[o.Rule+"\x00"+o.Key] {
+				out[o.Rule+" "+o.Key] = true
+			}
+		}
+		return out, ""
+	}
+	var lines []string
+	disc, same, quiet := 0, 0, 0
+	for _, d := range dirs {
+		fm, w1 := fired(filepath.Join(d, "defect.diff"))
+		ff, w2 := fired(filepath.Join(d, "repaired.diff"))
+		id := filepath.Base(d)
+		if fm == nil || ff == nil {
+			lines = append(lines, id+": skipped ("+w1+w2+")")
+			continue
+		}
+		var only []string
+		for k := range fm {
+			if !ff[k] {
+				only = append(only, k)
+			}
+		}
+		sort.Strings(only)
+		if len(ff) == 0 {
+			quiet++
+		}
+		switch {
+		case len(only) > 0:
+			disc++
+			lines = append(lines, fmt.Sprintf("%s: discriminates (%d obligations fire on the defective member only, e.g. %s); repaired member: %d not discharged", id, len(only), only[0], len(ff)))
+		case len(fm) == 0:
+			lines = append(lines, id+": silent on both members")
+		default:
+			same++
+			lines = append(lines, fmt.Sprintf("%s: the same %d obligations fire on both members (the alarm is about the restructuring)", id, len(fm)))
+		}
+	}
+	if len(dirs) > 0 {
+		fmt.Printf("selftest-pairs property=%s pairs=%d discriminated=%d same_alarms=%d repaired_silent=%d\n", prop, len(dirs), disc, same, quiet)
+	}
+	return lines
 }
 
 func firstLine(s string) string {
